@@ -739,6 +739,7 @@ class PCAVectorModel(MeanLinearVectorModel):
             self.n_samples,
             m_a=self._mean,
             f=forgetting_factor,
+            centred=self.centred,
         )
 
         # if the number of active components is the same as the total number
